@@ -50,6 +50,8 @@ def cases(tier):
         out.append({"grid": s, "part": "tvd", "tier": tier})
         if any(U.periodic_ok(k) for k in U.AXES[s["cls"]]):
             out.append({"grid": s, "part": "periodic_op"})
+    for s in U.big_specs():
+        out.append({"grid": s, "part": "op_big"})
     templates = ["U", "I"] if tier == "quick" else ["U", "G", "I"]
     for cls in U.CLASSES:
         d = U.dim(cls)
@@ -85,6 +87,66 @@ def _mkey(kind, g, mname, ax, bface):
         return "C01:%s:SphericalGrid3D:cellvolume_measure" % kind
     return "C01:%s:%s:axis=%d:%s%s" % (kind, g.cls, ax, "bface" if bface else "iface",
                                        ":midpoint_measure" if mname == "midpoint" else "")
+
+
+def _op_big_part(g, res):
+    """Many cells per axis: generic coefficient fields that vanish on the boundary faces (closed system), all four
+    global sign patterns of the velocity, two generic cell fields: the volume-weighted sum of every flux-form term
+    vanishes.  Measure: what domainIntegral uses (SphericalGrid3D: the mid-point measure the terms divide by; the
+    mismatch with cellvolume is the recorded finding)."""
+    F = res["findings"]
+    V = U.metric(g.cls, g.mesh)["vol"] if g.cls == "SphericalGrid3D" else np.asarray(g.mesh.cellvolume, dtype=float)
+    vf = _vfull(g, V)
+    FL = pf.fluxLimiter("Koren")
+
+    def closed(arrs):
+        out = []
+        for ax, a in enumerate(arrs):
+            a = a.copy()
+            sl = [slice(None)] * g.d
+            sl[ax] = 0
+            a[tuple(sl)] = 0.0
+            sl[ax] = -1
+            a[tuple(sl)] = 0.0
+            out.append(a)
+        return out
+    D = U.face_from_arrays(g.mesh, closed(g.face_arrays(U.generic_face(g.mesh, tag=31))))
+    absu = closed(g.face_arrays(U.generic_face(g.mesh, tag=33)))
+    pats = []
+    for mode in range(4):
+        arrs = []
+        for a in absu:
+            par = np.indices(a.shape).sum(axis=0) % 2
+            arrs.append(a if mode == 0 else (-a if mode == 1 else np.where(par == (mode - 2), a, -a)))
+        pats.append(arrs)
+
+    def rep(what, vec, mag):
+        res["evals"] += 1
+        res["nontrivial"] += 1
+        tot = float(vf @ vec)
+        sc = float(np.abs(vf) @ np.abs(mag))
+        if not abs(tot) <= 1e-11 * sc + 1e-300:
+            F.append({"key": "C01:big:%s:%s" % (what, g.cls),
+                      "msg": "%s on %s with coefficients that vanish on the boundary: the volume-weighted sum of the term is %.6g (scale %.6g), interior fluxes do not cancel"
+                             % (what, U.spec_id(g.spec), tot, sc), "detail": {"grid": U.spec_id(g.spec)}})
+    for tag in (35, 37):
+        fld = U.generic_array(g.fshape, tag=tag, signed=(tag == 35))
+        phi = g.cell(fld)
+        x = fld.ravel()
+        M = pf.diffusionTerm(D)
+        rep("diffusionTerm", M @ x, abs(M) @ np.abs(x))
+        Fd = D * pf.gradientTerm(phi)
+        dv = np.asarray(pf.divergenceTerm(Fd), dtype=float)
+        rep("divergenceTerm", dv, np.abs(dv))
+        for pi, arrs in enumerate(pats):
+            u = U.face_from_arrays(g.mesh, arrs)
+            for nm, T in (("convectionTerm", pf.convectionTerm), ("convectionUpwindTerm", pf.convectionUpwindTerm)):
+                M = T(u)
+                rep(nm, M @ x, abs(M) @ np.abs(x))
+            rhs = np.asarray(pf.convectionTVDupwindRHSTerm(u, phi, FL), dtype=float)
+            if np.all(np.isfinite(rhs)):
+                # scale: the upwind operator's magnitude (the correction is a difference of fluxes of that size)
+                rep("convectionTVDupwindRHSTerm", rhs, abs(pf.convectionUpwindTerm(u)) @ np.abs(x) + np.abs(rhs))
 
 
 def _op_part(g, res):
@@ -607,6 +669,8 @@ def _solve_open_part(g, res):
 def weight(case):
     sh = case["grid"]["shape"]
     n = int(np.prod([k + 2 for k in sh]))
+    if case["part"] == "op_big":
+        return n
     w = {"op": 1, "tvd": 3 ** (max(sh) + 2) / 20.0, "periodic_op": 1, "solve_closed": 2 ** len(sh) * 3, "solve_open": 1}[case["part"]]
     return n * len(sh) * w
 
@@ -618,7 +682,7 @@ def run_case(case):
     if part == "tvd":
         _tvd_part(g, res, case.get("tier", "quick"))
     else:
-        {"op": _op_part, "periodic_op": _periodic_op_part,
+        {"op": _op_part, "op_big": _op_big_part, "periodic_op": _periodic_op_part,
          "solve_closed": _solve_closed_part, "solve_open": _solve_open_part}[part](g, res)
     res["outcomes"] = {"%s:%s" % (part, "ok" if not res["findings"] else "viol"): 1}
     res["sample"] = {"grid": U.spec_id(g.spec), "part": part}
